@@ -1074,7 +1074,7 @@ bool Session::send_process(Message *msg) // called from the connection (possibly
 		{
 			if (!_batchmsgs_buffer.empty())
 			{
-				_batchmsgs_buffer.append(ptr);
+				_batchmsgs_buffer.append(ptr, enclen);
 				ptr = &_batchmsgs_buffer[0];
 				enclen = _batchmsgs_buffer.size();
 			}
@@ -1089,7 +1089,7 @@ bool Session::send_process(Message *msg) // called from the connection (possibly
 		}
 		else
 		{
-			_batchmsgs_buffer.append(ptr);
+			_batchmsgs_buffer.append(ptr, enclen);
 		}
 
 		if (_plogger && _plogger->has_flag(Logger::outbound))
